@@ -107,6 +107,16 @@ func c02Check(c shCase) (fs []rep.Finding) {
 		return
 	}
 	want := sighashref.ForkIDPreimage(ref, int(c.Idx), sc, ref.Ins[c.Idx].PrevSats, uint32(c.HT))
+	// the returned preimage belongs to the caller: later hashing must not change it
+	held := append([]byte(nil), pre...)
+	for i := 0; i < 6 && bytes.Equal(pre, held); i++ {
+		_, _ = tx.CalcInputPreimage(c.Idx, flag^sighash.Flag(1+i))
+		_, _ = tx.CalcInputSignatureHash(c.Idx, flag^sighash.Flag(0x80))
+	}
+	if !bytes.Equal(pre, held) {
+		fs = append(fs, rep.F("forkid|returned-preimage-changes-later", "a preimage returned earlier changed when further hashes were computed"))
+		pre = held
+	}
 	if !bytes.Equal(pre, want) {
 		fs = append(fs, rep.F(fmt.Sprintf("forkid|preimage|base=%d,acp=%v", c.HT&0x1f&3, c.HT&0x80 != 0), "preimage differs from the BSV replay-protected digest preimage",
 			"got", fmt.Sprintf("%x", pre), "want", fmt.Sprintf("%x", want)))
